@@ -76,7 +76,11 @@ StrCast(v) ==
 
 -----------------------------------------------------------------------------
 (* Numeric predicate on a field value.  `want` is the constant.             *)
-SameKind(x, y) == x.k = y.k
+(* an integer CONSTANT beyond the i64 range is carried by the engine as a float (the parser's    *)
+(* as_i64 fails, as_f64 succeeds): it is of the float kind, so a comparison with an integer     *)
+(* field is a comparison across kinds (soundness only)                                         *)
+ConstKind(c) == IF c.k = "i" /\ ~FitsI64(c) THEN "f" ELSE c.k
+SameKind(x, c) == x.k = ConstKind(c)
 
 CmpNums(op, x, c) ==
   IF SameKind(x, c) THEN TF(NumRel(op, x, c))
